@@ -156,7 +156,7 @@ static void map_case(unsigned n, int ins, int ers)
         CHECK(rc == 0 && it.key == &K[k] && it.val == &V[k], "erase(%u) returned %d", k, rc);
         K[k] = -1 - (int)k; held--;        /* mark erased (the key object itself is no longer in the map) */
     }
-    for (i = 0; i < n && !nviol; i++) { int probe = (int)i; cstl_map_find(&m, &probe, &it); CHECK((it._ != NULL) == (K[i] >= 0), "after erasing half, find(%u) is %s", i, it._ ? "found" : "missing"); }
+    for (i = 0; i < n && !nviol; i++) { int probe = (int)i; cstl_map_find(&m, &probe, &it); CHECK(!cstl_map_iterator_eq(&it, cstl_map_iterator_end(&m)) == (K[i] >= 0), "after erasing half, find(%u) is %s", i, !cstl_map_iterator_eq(&it, cstl_map_iterator_end(&m)) ? "found" : "missing"); }
     CHECK(cstl_map_size(&m) == held, "size %zu for %u entries after erasing", cstl_map_size(&m), held);
     mclr = 0; cstl_map_clear(&m, mclear, NULL);
     CHECK(mclr == (int)held && shim_nlive() == 0 && cstl_map_size(&m) == 0, "clear made %d callbacks for %u entries, %d nodes left", mclr, held, shim_nlive());
